@@ -1,4 +1,5 @@
 import Mp4ff.Expect.Facts
+import Mp4ff.Expect.Transcribed
 /-!
 # C03 — the two decoders and the two encoders are interchangeable
 In the model there is one codec per box; the duplication lives in the Go code, so the Lean content is the
@@ -18,5 +19,10 @@ theorem registries_paired :
   Expect.registries_paired
 
 theorem registry_nodup : decoderKeys.Nodup ∧ decoderSRKeys.Nodup := Expect.registry_nodup
+
+/-- the Go functions the models of this property transcribe (committed table `spec/transcribed.json`, checked against
+    the current source by the extractor on every run) all still exist -/
+theorem model_sources_exist :
+    (["Aac.lean", "Bits.lean", "Boxes.lean"] : List String).all Mp4ff.Expect.presentFor = true := by decide +kernel
 
 end Mp4ff.C03
